@@ -145,7 +145,7 @@ class Granted(object):
         return "item-result"
 
 
-ATTACK_STRINGS = ["secret", "{0.secret}", "{0.__class__.CLS_SECRET}", "{0.__dict__}", "%(secret)s", "__class__",
+ATTACK_STRINGS = ["secret", "{receiver.secret}", "{0.secret}", "{0.__class__.CLS_SECRET}", "{0.__dict__}", "%(secret)s", "__class__",
                   "__globals__", "__dict__", "get_secret", "{.secret}", "{secret}", "_hidden", "CLS_SECRET",
                   "{0[secret]}", "__init__", "startswith"]
 
@@ -238,6 +238,90 @@ TEXT_ATTACKS = [
     "{a => 1}.set($c, 1)", "{a => 1}.set(a, $c)", "set($c)", "set($c, $c)", "[$c].toSet()", "$c.contains(1)", "[1].contains($c)",
     "{a => 1}.containsKey($c)", "{a => 1}.containsValue($c)", "$c.containsKey(secret)", "{a => 1}[$c]", "{a => 1}[$c, 2]", "[1, 2][$c]",
 ]
+
+
+# ---- attacker-controlled strings used as function / method / member / keyword NAMES ------------
+def name_fields():
+    """field names a str.format call inside yaql could bind a host object to: positional indexes and the
+    parameter names of every exception constructor and of the name-taking stdlib payloads (introspected)"""
+    import inspect
+    fields = ["0", "1", "2", "", "self", "obj", "x", "args[0]", "kwargs[x]"]
+    for n, cls in sorted(vars(yexc).items()):
+        if isinstance(cls, type) and issubclass(cls, Exception):
+            try:
+                fields += [q for q in inspect.signature(cls.__init__).parameters if q not in ("self", "args", "kwargs")]
+            except (TypeError, ValueError):
+                pass
+    out = []
+    for f in fields:
+        if f not in out:
+            out.append(f)
+    return out
+
+
+def name_templates(deep):
+    ts = []
+    for f in name_fields():
+        sufs = [".secret", "[secret]"]
+        if deep or f in ("receiver", "0", "name"):
+            sufs += [".__class__.CLS_SECRET", "._hidden", ".get_secret", ".__dict__"]
+        ts += ["{%s%s}" % (f, suf) for suf in sufs]
+    ts += ["%(secret)s", "%(receiver)s", "%s", "{}", "{!r}", "{0}", "{receiver}", "{receiver!r:>{receiver.secret}}"]
+    return ts
+
+
+NAME_TEXT_SHAPES = [
+    "call('%(t)s', [], {}, $c)", "call('%(t)s', [$c], {})", "call('%(t)s', [], {x => $c})", "call('%(t)s', [], {'%(t)s' => $c})",
+    "call('%(t)s', [$c], {x => $c}, $c)", "call(call, ['%(t)s', [], {}], {receiver => $c})", "call('%(t)s', [], {receiver => $c})",
+    "call('%(t)s', [1], {a => 2}, $c)", "call('%(t)s', [], {}, $cl)", "call('%(t)s', [], {}, $co)", "call('%(t)s', [], {}, $ci)",
+    "call('%(t)s', [], {}, $cd)", "call('%(t)s', [$c], {}, $g)", "call(call, ['%(t)s', [$c], {}], {})",
+    "call(call, [call, ['%(t)s', [], {}, $c], {}], {})", "call(str, [], {'%(t)s' => $c})", "call(str, [$c], {'%(t)s' => 1})",
+    "call(len, [], {'%(t)s' => $c}, $c)", "def('%(t)s', $) -> call('%(t)s', [$c], {})", "def('%(t)s', $.secret) -> call('%(t)s', [$c], {})",
+    "def('%(t)s', $c) -> 1", "$c.call('%(t)s', [], {})", "call('#operator_.', [$c, '%(t)s'], {})", "call('#indexer', [$c, '%(t)s'], {})",
+    "call('#property#%(t)s', [$c], {})", "call('#get_context_data', ['%(t)s'], {})", "$c['%(t)s']", "$g['%(t)s']", "$cd['%(t)s']",
+    "$cd.get('%(t)s')", "$cl.select(call('%(t)s', [], {}, $))", "$cl.select(call('%(t)s', [$], {}))",
+    "[$c].select(call('%(t)s', [], {receiver => $}))", "lambda(call('%(t)s', [], {}, $))($c)",
+]
+
+
+def _kw(t):
+    return expressions.KeywordConstant(t)
+
+
+NAME_TREE_SHAPES = {
+    "fn(c)": lambda t: expressions.Function(t, var("c")),
+    "fn()": lambda t: expressions.Function(t),
+    "c.m()": lambda t: dot(var("c"), expressions.Function(t)),
+    "c.m(c)": lambda t: dot(var("c"), expressions.Function(t, var("c"))),
+    "cl.m()": lambda t: dot(var("cl"), expressions.Function(t)),
+    "ci.m()": lambda t: dot(var("ci"), expressions.Function(t)),
+    "co.m()": lambda t: dot(var("co"), expressions.Function(t)),
+    "g.m()": lambda t: dot(var("g"), expressions.Function(t)),
+    "g.m(c)": lambda t: dot(var("g"), expressions.Function(t, var("c"))),
+    "c?.m()": lambda t: expressions.BinaryOperator("?.", var("c"), expressions.Function(t), None),
+    "c.attr": lambda t: dot(var("c"), _kw(t)),
+    "co.attr": lambda t: dot(var("co"), _kw(t)),
+    "g.attr": lambda t: dot(var("g"), _kw(t)),
+    "cd.attr": lambda t: dot(var("cd"), _kw(t)),
+    "cl.attr": lambda t: dot(var("cl"), _kw(t)),
+    "c[kw]": lambda t: expressions.IndexExpression(var("c"), _kw(t)),
+    "g[kw]": lambda t: expressions.IndexExpression(var("g"), _kw(t)),
+    "str(kw=>c)": lambda t: expressions.Function("str", expressions.MappingRuleExpression(_kw(t), var("c"))),
+    "c.m(kw=>c)": lambda t: dot(var("c"), expressions.Function("len", expressions.MappingRuleExpression(_kw(t), var("c")))),
+    "g.method(kw=>c)": lambda t: dot(var("g"), expressions.Function("method", expressions.MappingRuleExpression(_kw(t), var("c")))),
+    "getctx": lambda t: expressions.Function("#get_context_data", expressions.Constant(t)),
+    "getctx$": lambda t: expressions.GetContextValue(expressions.Constant("$" + t)),
+}
+
+
+def name_cases(deep):
+    out = []
+    for t in name_templates(deep):
+        for i in range(len(NAME_TEXT_SHAPES)):
+            out.append({"k": "name", "shape": i, "t": t})
+        for sid in sorted(NAME_TREE_SHAPES):
+            out.append({"k": "name", "shape": sid, "t": t})
+    return out
 
 
 def exc_class(e):
@@ -395,12 +479,18 @@ class Sweeper(object):
                             cases.append({"k": "fd", "i": idx, "form": form, "args": args})
         for t in TEXT_ATTACKS:
             cases.append({"k": "text", "expr": t})
+        cases += name_cases(deep)
         return cases
 
     # ---- one case --------------------------------------------------------
     def build(self, case):
         if case["k"] == "text":
             return self.engine(case["expr"])
+        if case["k"] == "name":
+            if isinstance(case["shape"], int):
+                return self.engine(NAME_TEXT_SHAPES[case["shape"]] % {"t": case["t"]})
+            body = NAME_TREE_SHAPES[case["shape"]](case["t"])
+            return expressions.Statement(body, self.engine)
 
         def node(k):
             return self.exprs[k]() if k.startswith("x_") else var(k)
@@ -426,6 +516,10 @@ class Sweeper(object):
     def describe(self, case):
         if case["k"] == "text":
             return case["expr"]
+        if case["k"] == "name":
+            if isinstance(case["shape"], int):
+                return NAME_TEXT_SHAPES[case["shape"]] % {"t": case["t"]}
+            return "tree %s with the name %r: %s" % (case["shape"], case["t"], NAME_TREE_SHAPES[case["shape"]](case["t"]))
         li, name, fd = self.lookup(case)
         vals = make_values()
 
@@ -556,8 +650,10 @@ def sweep(run, deep, corpus):
     cases = [c for c in corpus] + sw.plan(thorough)
     t0 = time.time()
     results = run_parallel(sw, cases)
-    run.note("canary sweep: %d cases over %d registered overloads + %d attack texts in %.1fs (deep=%s)" % (
-        len(cases), len(sw.regs), len(TEXT_ATTACKS), time.time() - t0, thorough))
+    run.note("canary sweep: %d cases over %d registered overloads + %d attack texts + %d name-as-template cases "
+             "(%d templates x %d shapes) in %.1fs (deep=%s)" % (
+                 len(cases), len(sw.regs), len(TEXT_ATTACKS), len(name_cases(thorough)), len(name_templates(thorough)),
+                 len(NAME_TEXT_SHAPES) + len(NAME_TREE_SHAPES), time.time() - t0, thorough))
     run.note("slots not counted as reaching a member: instance attributes %s; class attributes %s (structural "
              "isinstance / type names); operator slots %s" % (sorted(ALLOWED_INSTANCE_ATTRS), sorted(ALLOWED_CLASS_ATTRS),
                                                             sorted(ALLOWED_PROTOCOL)))
@@ -567,6 +663,8 @@ def sweep(run, deep, corpus):
         ran = outcome == "value" or outcome.startswith("py:") or (outcome.startswith("yaql:"))
         run.case(("sweep", c.get("i"), c.get("form"), tuple(c.get("args", ())), c.get("expr")), nontrivial=ran)
         run.count("sweep:" + (outcome if not outcome.startswith("py:") else "python-exception"))
+        if c["k"] == "name":
+            run.count("sweep-name-shape:" + ("text" if isinstance(c["shape"], int) else "tree"))
         if c["k"] == "fd":
             run.count("sweep-canary:" + next((k for k in c["args"] if k in CANARY_KEYS or k in EXPR_CANARY), "none"))
         if outcome in ("hung", "timeout", "worker-died", "missing") or outcome.startswith("harness:"):
@@ -574,13 +672,16 @@ def sweep(run, deep, corpus):
         if i % 1511 == 0:
             run.sample({"sweep": sw.describe(c), "outcome": outcome})
         if bad:
-            key = (c.get("i"), bad[0]) if c["k"] == "fd" else ("text", bad[0])
+            key = (c.get("i"), bad[0]) if c["k"] == "fd" else (c["k"], bad[0])
             if key in reported:
                 reported[key] += 1
                 continue
             reported[key] = 1
             what = ("a registered function touches a host object that was not yaqlized: %s" % bad[0]) \
                 if c["k"] == "fd" else ("an expression reaches into a host object that was not yaqlized: %s" % bad[0])
+            if c["k"] == "name":
+                what = ("a string supplied by the expression as a function / method / member / keyword NAME is interpreted "
+                        "(format template) against a host object that was not yaqlized: %s" % bad[0])
             if c["k"] == "fd":
                 what += " [%s]" % sw.regs[c["i"]][1]
             if c["k"] == "fd":
